@@ -5,7 +5,7 @@
    chunks allowed) in ANY buffer layout (foreign bytes before the column's region, slack after it, stale
    index entries after the valid ones): all theorems are unbounded in sizes and chunk sizes. *)
 From Coq Require Import ZArith List Bool.
-From EV Require Import Res Arr Transform TransformSpec TransformBase TransformCat TransformLeaky TransformFixed
+From EV Require Import Res Arr Transform TransformSpec TransformBase TransformCat TransformLeaky TransformOrder TransformFixed
   TransformNum TransformMisc TransformTs TransformTrim TransformBool TransformDate.
 Import ListNotations.
 Open Scope Z_scope.
@@ -33,6 +33,35 @@ Theorem leaky_exact_match_and_freetext_offsets : forall cats cc off slack tail,
 Proof. exact leaky_exact_match_proof. Qed.
 Print Assumptions leaky_exact_match_and_freetext_offsets.
 
+(* 2b. (strengthening SC06) the ORDER in which the packed key table presents the schema's entries is not
+      observable: for ANY arrangement s of the entries (same members; repeats allowed) the two kernels, run
+      over the table packed from s (`bm_of s` = keys concatenated, prefix sums of the byte lengths, codes), give
+      the exact-match specification of the schema.  get_byte_map produces one such arrangement (str order =
+      UTF-8 byte order, which is NOT order by length in characters or bytes).  Keys are arbitrary byte
+      strings: non-ASCII names whose character count and byte count order them differently are included. *)
+Theorem categorical_key_order_unobservable : forall cats s cc off slack tail,
+  cats_ok cats = true -> same_entries s cats -> 0 <= off -> 0 <= tail ->
+  fold_res (cat_import_part (bm_of s)) [] (map (mk_chunk off slack tail) cc) = Ok (spec_cat cats (concat cc)).
+Proof. exact cat_any_order_proof. Qed.
+Print Assumptions categorical_key_order_unobservable.
+
+Theorem leaky_key_order_unobservable : forall cats s cc off slack tail,
+  cats_ok cats = true -> same_entries s cats -> 0 <= off -> 0 <= slack -> 0 <= tail ->
+  exists st, fold_res (leaky_import_part (bm_of s)) lkst0 (map (mk_chunk off slack tail) cc) = Ok st /\
+             (ls_data st, ls_idx st, ls_vals st) = spec_leaky cats (concat cc) /\
+             ls_acc st = len (ls_vals st).
+Proof. exact leaky_any_order_proof. Qed.
+Print Assumptions leaky_key_order_unobservable.
+
+Theorem byte_map_is_an_arrangement : forall cats,
+  cats_ok cats = true -> sumZ (map lenfst cats) <= I64MAX ->
+  exists s, same_entries s cats /\ get_byte_map cats = Ok (bm_of s).
+Proof. exact byte_map_arrangement. Qed.
+Print Assumptions byte_map_is_an_arrangement.
+
+Example key_order_hypotheses_satisfiable : cats_ok mixed_cats = true /\ same_entries (rev mixed_cats) mixed_cats.
+Proof. exact mixed_cats_ok. Qed.
+
 (* F-C06a, on the unrepaired uint8 offset table (imax = 255): a valid schema with 270 key bytes raises;
    the repaired table accepts it. *)
 Theorem byte_map_offsets_overflow_refuted :
@@ -52,6 +81,14 @@ Theorem validation_mode_rule : forall (parse:list Z -> option Z) (rng:option (Z 
   = spec_num parse rng mode inv_val (concat cc).
 Proof. exact validation_mode_rule_proof. Qed.
 Print Assumptions validation_mode_rule.
+
+(* 3b. (strengthening SC06) the text handed to the parser is the WHOLE cell, whatever its length: the
+      conversion buffer of a chunk is as wide as the longest cell of that chunk (only the NUL padding of the
+      'S<w>' element is dropped).  No width bound exists in transform_int / transform_float. *)
+Theorem numeric_text_read_whole : forall off slack tail cells, 0 <= off ->
+  num_elements (mk_chunk off slack tail cells) = Ok (map strip_nul cells).
+Proof. exact num_elements_ok. Qed.
+Print Assumptions numeric_text_read_whole.
 
 (* the integer instance: Python's int() on bytes as defined in Gallina (py_int) meets the first premise *)
 Theorem int_validation_mode_rule : forall lo hi inv_text inv_val,
